@@ -178,6 +178,11 @@ def block_table(thorough):
           B("RationalResampler<u8>", {"interp": 3, "deci": 1}, "bytes", 2000, extra={"extra_sched": held}),
           B("Hilbert", {"ntaps": 5}, "small", 1500, extra={"extra_sched": held}),
           B("VecToStream<u8>", {}, "bytes", 0, extra={"extra_sched": held, "packets": [[7] * 3000, [8] * 2000]})]
+    # no input at all: what a block emits of its own accord (Delay's leading zeros, more of them than
+    # the output stream holds) must come out although its input has ended and is empty
+    t += [B("Delay<Big>", {"delay": 6}, "ramp", 0, big=True),
+          B("Delay<u8>", {"delay": 5000}, "bytes", 0),
+          B("Delay<u8>", {"delay": 3}, "bytes", 0)]
     return t
 
 
